@@ -189,6 +189,14 @@ func GenOAFile(r *R, idx int, o OAOpts) (*ir.Request, []string) {
 				no++
 				path += "/{" + fn + "}"
 			}
+			if nv >= 2 && o.on("two_vars_in_segment", r, 1, 10) {
+				// `/compare/{base}...{head}`: both are variables of the template
+				path = fmt.Sprintf("/m%d/{%s}...{%s}", reqNo, in.Fields[0].Name, in.Fields[1].Name)
+				for _, fl := range in.Fields[2:] {
+					path += "/{" + fl.Name + "}"
+				}
+				tag("two_vars_in_segment")
+			}
 			if nv > 0 && o.on("repeated_var", r, 1, 10) {
 				path += "/again/{" + in.Fields[0].Name + "}"
 				tag("repeated_var")
